@@ -13,6 +13,7 @@ def main():
         d = f"/verif/seeded/{sid}"
         meta = json.load(open(f"{d}/meta.json"))
         prop = meta["property"]
+        chk = meta.get("check_with", prop)  # a few seeds are caught by the check of a neighbouring property (same mechanism)
         wt = f"/tmp/seedrun_{sid}"
         sh(f"git -C /repo worktree remove --force {wt}")
         sh(f"git -C /repo worktree add --detach {wt} HEAD")
@@ -21,10 +22,10 @@ def main():
             rows.append((sid, prop, "PATCH-DOES-NOT-APPLY", ""))
             sh(f"git -C /repo worktree remove --force {wt}")
             continue
-        c = sh(f"cd /verif && VF_REPO={wt} ./check {prop} --tier quick", timeout=3600)
+        c = sh(f"cd /verif && VF_REPO={wt} ./check {chk} --tier quick", timeout=3600)
         viol = [l for l in c.stdout.splitlines() if l.startswith("VIOLATION")]
         keys = [l.strip()[4:].split(" ")[0] for l in c.stdout.splitlines() if l.strip().startswith("key=")]
-        rows.append((sid, prop, "caught" if c.returncode == 1 and viol else f"MISSED(exit {c.returncode})", ", ".join(keys[:3])))
+        rows.append((sid, prop if chk == prop else f"{prop} (by {chk})", "caught" if c.returncode == 1 and viol else f"MISSED(exit {c.returncode})", ", ".join(keys[:3])))
         sh(f"git -C /repo worktree remove --force {wt}")
         print(rows[-1], flush=True)
     print("\n| seed | property | quick check | first violation keys |\n|---|---|---|---|")
